@@ -9,6 +9,8 @@ from core import RuleOut
 from errd import classify_consumer, parent_map
 from hirlib import callee, local_of, peel, peel_refs, walk
 
+# consumers of the Result that cannot panic (this rule is about panics, not about dropped errors)
+NO_PANIC = ("unwrap_or", "unwrap_or_default", "unwrap_or_else", "ok", "is_ok", "is_err", "err")
 INTS = {"u8", "u16", "u32", "u64", "u128", "usize", "i8", "i16", "i32", "i64", "i128", "isize"}
 
 
@@ -75,7 +77,9 @@ def rule_tryconv(crate, exempt=None):
             tgt = crate.ty(x).split("<", 1)[1].split(",")[0]
             key = "%s:%s->%s#%d" % (short, src, tgt, i)
             verdict, why = classify_consumer(x, pm, crate)
-            if verdict != "violation":
+            if verdict == "violation" and any(("`.%s()`" % nm) in why for nm in NO_PANIC):
+                out.ok(key, ff, ll, "an out-of-range value takes a fallback instead of panicking (%s)" % why.split(" ")[0])
+            elif verdict != "violation":
                 out.ok(key, ff, ll, "the conversion result is handled (%s)" % why)
             elif _is_const(operand, inits):
                 out.ok(key, ff, ll, "constant operand")
